@@ -54,6 +54,10 @@ mod schema {
     }
 }
 
+#[cfg(litep2p_verif)]
+#[path = "../../../verif/c19_bitswap.rs"]
+pub(crate) mod verif_c19;
+
 /// Log target for the file.
 const LOG_TARGET: &str = "litep2p::ipfs::bitswap";
 
